@@ -27,7 +27,9 @@ func deepSortLists(v interface{}) interface{} {
 		for i, e := range x {
 			o[i] = deepSortLists(e)
 		}
-		sort.SliceStable(o, func(i, j int) bool { return enc(o[i]) < enc(o[j]) })
+		// (printed as members, so that a member of Go type mxj.Map and a plain map differ)
+		key := func(x interface{}) string { return enc([]interface{}{x}) }
+		sort.SliceStable(o, func(i, j int) bool { return key(o[i]) < key(o[j]) })
 		return o
 	}
 	return v
